@@ -269,7 +269,7 @@ export const asyncRunner = true;
 export function makeRunner(rt_, mode, build) {
   return async function run(req, compiled) {
     const h = head(compiled);
-    if (h !== "js") return [[A(h), ...(h === "diags" ? [A(String(compiled.length - 1))] : [])], [A("oracle"), A("ok")]];
+    if (h !== "js") return [[A(h)], [A("oracle"), A(h === "diags" ? "ok" : "fail"), ...(h === "diags" ? [] : [A("c04." + h)])]];
     let mod;
     try { mod = await loadEmitted(build, compiled[1]); } catch (e) { return [[A("load-error"), String(e && e.message).slice(0, 200)], [A("oracle"), A("fail"), A("c04.load")]]; }
     let parsers;
